@@ -288,6 +288,15 @@ let dispatch (f : Stdlib.String.t list) : Stdlib.String.t =
   | ["builder.ops"; ops; tbl] ->
       let (idna, ip_ok) = mk_oracle_table tbl in
       build_res_s (build_ops alnum_fn idna ip_ok (List.map parse_bop (split ';' ops)))
+  | ["builder.fields"; ops; kind] ->
+      (* the names of the fields of the built message, lower-cased, in the order of the header section *)
+      let parse_fop s = match split ':' s with
+        | ["from"] -> FFrom | ["to"] -> FTo | ["cc"] -> FCc | ["bcc"] -> FBcc | ["reply_to"] -> FReplyTo | ["sender"] -> FSender
+        | ["date"] -> FDate | ["subject"] -> FSubject | ["mimeversion"] -> FMimeVersion
+        | ["hdr"; n] -> FHeader (unhex n) | ["keepbcc"] -> FKeepBcc | ["envelope"] -> FEnvelope
+        | _ -> failwith "fop" in
+      let ops = if ops = "" then [] else List.map parse_fop (split ';' ops) in
+      hexlist (fields_after ops (if kind = "raw" then KRaw else KMime))
   | ["spec.build"; ops] -> build_res_s (spec_build (List.map parse_bop (split ';' ops)))
   | ["pool.replay"; mx; evs] ->
       (* events ';'-separated; the pseudo event "obs" prints the model's idle-set size at that point *)
